@@ -207,3 +207,43 @@ pub fn promotion_race(rng: &mut Rng) -> Pos {
         }
     }
 }
+
+/// A sparse position with pawns close to promotion (6th/7th rank for white, 3rd/2nd for
+/// black) and a few pieces: promotions and under-promotions sit just below the horizon.
+pub fn advanced_pawn_position(rng: &mut Rng) -> Pos {
+    loop {
+        let mut p = Pos {
+            sq: [EMPTY; 64],
+            white_to_move: rng.chance(1, 2),
+            castle: [false; 4],
+            ep: None,
+            halfmove: 0,
+            fullmove: 45,
+        };
+        let mut free: Vec<u8> = (0..64).collect();
+        rng.shuffle(&mut free);
+        p.sq[free.pop().unwrap() as usize] = KING;
+        p.sq[free.pop().unwrap() as usize] = KING | BLACK;
+        for _ in 0..rng.range(1, 3) {
+            let white = rng.chance(1, 2);
+            let r = if white { 5 + rng.below(2) as i8 } else { 2 - rng.below(2) as i8 };
+            let s = sq(rng.below(8) as i8, r);
+            if p.sq[s as usize] == EMPTY {
+                p.sq[s as usize] = if white { PAWN } else { PAWN | BLACK };
+            }
+        }
+        for _ in 0..rng.range(0, 4) {
+            let s = rng.below(64) as u8;
+            if p.sq[s as usize] == EMPTY {
+                let k = *rng.pick(&[PAWN, KNIGHT, BISHOP, ROOK, QUEEN]);
+                if k == PAWN && (rank_of(s) == 0 || rank_of(s) == 7) {
+                    continue;
+                }
+                p.sq[s as usize] = k | if rng.chance(1, 2) { 0 } else { BLACK };
+            }
+        }
+        if p.is_valid() && !p.legal_moves().is_empty() {
+            return p;
+        }
+    }
+}
